@@ -413,6 +413,27 @@ fn eq_hash_sweep(ctx: &mut Ctx, maxlen: usize) {
         }
     }
     ctx.count("eq_pairs", (arrs.len() * arrs.len()) as u64);
+    // element types whose equality is not reflexive: an array holding a NaN cell does not have "equal
+    // cells" even when compared with itself, so == must be false (this is what Vec and slices do too)
+    for (c, r) in [(1usize, 1usize), (2, 2), (3, 1), (1, 4)] {
+        for pos in 0..c * r {
+            let mut v: Vec<f64> = (0..c * r).map(|i| i as f64).collect();
+            let plain = TooDee::from_vec(c, r, v.clone());
+            v[pos] = f64::NAN;
+            let a = TooDee::from_vec(c, r, v);
+            let b = a.clone();
+            ctx.count("calls", 3);
+            #[allow(clippy::eq_op)]
+            let self_eq = a == a;
+            if self_eq || a == b || !(a != a) {
+                ctx.violation("eq", "eq:non-reflexive-cells-equal", format!("{}x{} with NaN at {}: a==a is {}, a==clone is {}", c, r, pos, self_eq, a == b));
+            } else if !(plain == plain.clone()) || plain == a {
+                ctx.violation("eq", "eq:wrong", format!("{}x{} f64 arrays", c, r));
+            } else {
+                ctx.nontrivial(("eq-nan", c, r, pos));
+            }
+        }
+    }
 }
 
 pub fn run_c20(ctx: &mut Ctx) {
